@@ -671,6 +671,9 @@ class App:
             # energy of order G eps^2, which fluctuates
             gsum = sum(g_ for g_, _ in ref.branches)
             floor = 1e4 * core.EPS**2 * gsum * (1.0 + np.sum(Hn.reshape(self.N, -1)**2, axis=1))
+            # the elastic strain of a branch is the logarithm of a near-identity tensor, known to an ABSOLUTE error
+            # of order eps; the stored energy G |Ee|^2 therefore carries an error of order eps * sqrt(G * stored)
+            floor = floor + 100 * core.EPS * np.sqrt(gsum * np.maximum(prev, 0.0))
             k = int(np.argmax(stored - prev * (1 + 1e-12) - floor))
             ctx.require(np.all(stored <= prev * (1 + 1e-12) + floor), 'C11', 'relaxation_monotone',
                         lambda: 'stored non-equilibrium energy rose from %.12g to %.12g during a hold (dt/tau_min = %.3g)'
